@@ -90,11 +90,24 @@ fn arbitrary_bytes(opts: &Opts, rep: &mut Report, rng: &mut Rng) {
             _ => duts::gen_bits(&mut r, len),
         };
         rep.eval();
-        rep.distinct(hmix(k % 4, seed));
+        rep.distinct(hmix(k % 5, seed));
         let stream = rec::PAGE * *r.pick(&[1usize, 2]);
         rec::stream_size(stream);
         let (inp, rs) = CopyIn::new(data);
-        let (name, dut) = match k % 4 {
+        let (name, dut) = match k % 5 {
+            4 => {
+                // a "bit" stream that is not made of 0s and 1s, with frame starts marked
+                let (b, o) = Il2pDeframer::new(rs);
+                let mut d = dut_bytes_in("Il2pDeframer", b, inp, vec![Box::new(PktOut::new(o))]);
+                let mut tags = Vec::new();
+                if len > 0 {
+                    for _ in 0..r.range(0, 8) {
+                        tags.push(InTag { pos: r.below(len), key: "sync".into(), val: TagValue::Bool(true) });
+                    }
+                }
+                d.ins[0].set_tags(tags);
+                ("Il2pDeframer(arbitrary bytes)", d)
+            }
             0 => {
                 let (mi, mx) = (*r.pick(&[0usize, 1, 2, 10]), *r.pick(&[0usize, 1, 5, 100, 1500]));
                 let (mut b, o) = HdlcDeframer::new(rs, mi, mx);
@@ -621,9 +634,12 @@ fn long_inputs(rep: &mut Report) {
 
 pub fn main(opts: &Opts) -> Report {
     let mut rep = Report::new("C15");
-    rep.rule = "every catalogue block driven by drip-feed schedules with inputs that mix NaN, +-inf, denormals and huge values (float blocks) ; HdlcDeframer/RtlSdrDecode/AuDecode with arbitrary bytes; StreamToPdu with arbitrary tag sequences; exhaustive AU header mutations (data offset 0..40, 2^31, 2^32-1; 7 encodings; 4 rates; 4 channel counts; truncations 0..28); SigMF recordings with hostile metadata (type confusion, missing keys, huge numbers, non-JSON) and archives (wrong entry types, duplicate names, non-UTF-8 names, sparse, truncated, corrupted); all bursts of length 0..6 (quick) / 0..8 (thorough) over {-1,0,1,NaN,+inf} through Midpointer and Wpcr; packets of length 0..8 through VecToStream; in child processes: 2^24+1000 samples without a transition and then a few transitions through SymbolSync (with and without clock output) and ZeroCrossing, and a one-million-sample burst with two transitions through Wpcr and Midpointer. Oracle: every call returns Ok or Err - never unwinds, aborts, or answers Again 65 times without a stream event; distinct = (target, input seed or input bytes)".into();
+    rep.rule = "every catalogue block driven by drip-feed schedules with inputs that mix NaN, +-inf, denormals and huge values (float blocks) ; HdlcDeframer/RtlSdrDecode/AuDecode with arbitrary bytes, Il2pDeframer with arbitrary bytes behind sync tags; a log sink that formats every record is installed (Info on even shards, Trace on odd ones) so that the arguments of log statements are evaluated; StreamToPdu with arbitrary tag sequences; exhaustive AU header mutations (data offset 0..40, 2^31, 2^32-1; 7 encodings; 4 rates; 4 channel counts; truncations 0..28); SigMF recordings with hostile metadata (type confusion, missing keys, huge numbers, non-JSON) and archives (wrong entry types, duplicate names, non-UTF-8 names, sparse, truncated, corrupted); all bursts of length 0..6 (quick) / 0..8 (thorough) over {-1,0,1,NaN,+inf} through Midpointer and Wpcr; packets of length 0..8 through VecToStream; in child processes: 2^24+1000 samples without a transition and then a few transitions through SymbolSync (with and without clock output) and ZeroCrossing, and a one-million-sample burst with two transitions through Wpcr and Midpointer. Oracle: every call returns Ok or Err - never unwinds, aborts, or answers Again 65 times without a stream event; distinct = (target, input seed or input bytes)".into();
     rep.assume("a worker process killed by SIGSEGV/SIGABRT is reported by the driver as a violation; the address-sanitizer build of the same workload runs in the thorough tier");
     rec::install(true);
+    // Every example program installs a logger; the crate's own tests do not, and the
+    // `log` macros evaluate their arguments only when one is listening.
+    install_formatting_logger(if opts.shard % 2 == 1 { log::LevelFilter::Trace } else { log::LevelFilter::Info });
     let mut rng = Rng::new(opts.shard_seed() ^ 0xC15);
     if opts.replay.is_some() {
         // inputs are regenerated from the shard seeds; replay re-runs the quick workload
@@ -645,6 +661,7 @@ pub fn main(opts: &Opts) -> Report {
     constant_bursts(opts, &mut rep, &mut rng);
     packets(&mut rep, &mut rng);
     let _ = before;
+    rep.count("log_records_formatted", LOG_RECORDS.load(Ordering::Relaxed));
     rep.sample(json!({"targets": rep.counters.keys().filter(|k| k.starts_with("inputs:")).collect::<Vec<_>>()}));
     let _: Option<Value> = None;
     rep
